@@ -512,7 +512,7 @@ fn hqr2<T: RealNumber, M: BaseMatrix<T>>(A: &mut M, V: &mut M, d: &mut [T], e: &
                         nn -= 2;
                     }
                 } else {
-                    if its == 300 {
+                    if its == 1000 {
                         panic!("Too many iterations in hqr");
                     }
                     if its > 0 && its % 10 == 0 {
